@@ -157,7 +157,10 @@ func (c *Ctx) owns(idx int64) bool {
 	if idx < c.From {
 		return false
 	}
-	return int(idx%int64(c.NWorkers)) == c.Worker
+	// rotate the assignment from one row of NWorkers indices to the next, so that case lists
+	// with a period dividing NWorkers (every 4th case is an expensive one) spread evenly
+	n := int64(c.NWorkers)
+	return int((idx+idx/n)%n) == c.Worker
 }
 
 // Skip advances the case counter by n without running anything (used to keep case
